@@ -179,4 +179,25 @@ def remove (h : Heap) (x : Int) : Heap × Nat :=
   (⟨r.1⟩, r.2)
 
 end Heap
+/-! ### abstract specifications (the reference the implementation's answers are compared with) -/
+
+/-- abstract set semantics used as the property-level oracle -/
+structure SpecSet where
+  keys : List Nat
+
+def SpecSet.has (s : SpecSet) (k : Nat) : Bool := s.keys.contains k
+def SpecSet.ins (s : SpecSet) (k : Nat) : SpecSet := if s.has k then s else ⟨k :: s.keys⟩
+def SpecSet.del (s : SpecSet) (k : Nat) : SpecSet := ⟨s.keys.filter (· ≠ k)⟩
+
+
+/-- maximum of a bag (list), `none` for the empty bag -/
+def listMax? (l : List Int) : Option Int := l.foldl (fun acc x => match acc with | none => some x | some m => some (max m x)) none
+
+/-- remove one occurrence -/
+def eraseOne (l : List Int) (x : Int) : List Int :=
+  match l with
+  | [] => []
+  | y :: r => if y = x then r else y :: eraseOne r x
+
+
 end LP
